@@ -130,4 +130,33 @@ def originMatch : Bytes → Bytes → Bool
 
 def matchesOrigins (os : List Bytes) (o : Bytes) : Bool := os.any (fun s => originMatch s o)
 
+/-! ### CORS decision (`setCommonHeaders`, the WebSocket `CheckOrigin`) -/
+
+def bStar : Bytes := [42]
+def bNull : Bytes := [110, 117, 108, 108]
+
+structure Cors where
+  acao : Option Bytes     -- Access-Control-Allow-Origin
+  vary : Bool             -- Vary: Origin
+  refused : Bool          -- 403 before anything else happens
+  deriving DecidableEq, Repr
+
+/-- `setCommonHeaders`: `origin` is the first value of the Origin header, `none` when the request
+    carries no such header (a header that is present but empty is `some []`). -/
+def corsDecision (allow : List Bytes) (origin : Option Bytes) : Cors :=
+  if allow.head? = some bStar then ⟨some bStar, false, false⟩
+  else match origin with
+    | none => ⟨none, false, false⟩
+    | some o =>
+      if o = bNull then ⟨none, false, false⟩
+      else if matchesOrigins allow o then ⟨some o, true, false⟩
+      else ⟨allow.head?, true, true⟩
+
+/-- The WebSocket upgrader's `CheckOrigin`. -/
+def wsOriginOK (allow : List Bytes) (origin : Option Bytes) : Bool :=
+  if allow.head? = some bStar then true
+  else match origin with
+    | none => true
+    | some o => o = bNull || matchesOrigins allow o
+
 end Resgate
